@@ -45,7 +45,7 @@ Proof.
   - cbn [rok]. auto.
   - apply andb_true_iff in Hb as [H1 H2]. cbn [rok]. split; auto.
     intros Hbe. destruct la; try discriminate; cbn [is_behindb negb orb] in H2; now apply zokb_ok.
-  - apply andb_true_iff in Hb as [H1 H2]. cbn [rok]. split; auto. now apply N.leb_le.
+  - cbn [rok]. auto.
   - cbn [rok]. auto.
   - destruct b; [|discriminate]. apply andb_true_iff in Hb as [Hb H3]. apply andb_true_iff in Hb as [H1 H2].
     cbn [rok]. auto.
